@@ -24,7 +24,7 @@ import (
 var errEntropy = errors.New("harness: entropy source failed")
 
 type faultReader struct {
-	src       *lib.DetRand
+	src       io.Reader
 	failAfter int   // total bytes before failing; <0 = never
 	err       error // error to return
 	withLast  bool  // return the error together with the last delivered bytes
@@ -34,6 +34,24 @@ type faultReader struct {
 	calls     int
 	toggle    bool
 	errored   bool // the reader has handed an error to its caller
+}
+
+// zeroThen yields 32 zero bytes (a legal, if unlucky, draw) and then the bytes of r.
+type zeroThen struct {
+	n int
+	r io.Reader
+}
+
+func (z *zeroThen) Read(p []byte) (int, error) {
+	if z.n < 32 {
+		k := min(len(p), 32-z.n)
+		for i := 0; i < k; i++ {
+			p[i] = 0
+		}
+		z.n += k
+		return k, nil
+	}
+	return z.r.Read(p)
 }
 
 func (f *faultReader) Read(p []byte) (int, error) {
@@ -77,7 +95,9 @@ func (f *faultReader) Read(p []byte) (int, error) {
 	return n, nil
 }
 
-var c20Ops = []string{"Builder.Build(WithRNG)", "New(rng)", "Append(built parent)", "Append(re-loaded parent)", "Append(built parent, source replays the parent's stream)", "Append(re-loaded parent, source replays the parent's stream)"}
+var c20Ops = []string{"Builder.Build(WithRNG)", "New(rng)", "Append(built parent)", "Append(re-loaded parent)", "Append(built parent, source replays the parent's stream)", "Append(re-loaded parent, source replays the parent's stream)",
+	"Builder.Build(WithRNG), source starts with 32 zero bytes", "New(rng), source starts with 32 zero bytes", "Append(built parent), source starts with 32 zero bytes",
+	"Builder.Build(WithRNG) again on the same builder after the failure"}
 var c20Errs = []error{io.EOF, io.ErrUnexpectedEOF, errEntropy}
 var c20Deliveries = []string{"one-read", "byte-per-read", "zero-length-reads-interleaved"}
 
@@ -88,8 +108,14 @@ func c20Run(c *core.C) {
 	op := c.Idx / perOp
 	rest := c.Idx % perOp
 	fr := &faultReader{src: lib.NewDetRand(c.Seed, fmt.Sprintf("c20-%d", c.Idx)), failAfter: -1}
-	replay := op >= 4
-	if replay {
+	zeros := op >= 6 && op <= 8
+	retry := op == 9
+	replay := op == 4 || op == 5 || zeros // the fault lies beyond the first 32 bytes
+	if zeros {
+		// a source whose first draw is 32 zero bytes: a library that distrusts it and draws again
+		// is handed the error in the second draw
+		fr.src = &zeroThen{r: lib.NewDetRand(c.Seed, fmt.Sprintf("c20-%d", c.Idx))}
+	} else if replay {
 		// the source replays the stream the parent was built from: its first 32 bytes are the
 		// secret the parent already carries, and the fault sits in the SECOND 32 bytes - a
 		// library that draws again must still report the error it is handed
@@ -128,20 +154,31 @@ func c20Run(c *core.C) {
 
 	pub, priv := lib.KeyPair(c.Seed, fmt.Sprintf("c20-root-%d", c.Idx))
 	blk := ast.Block{Facts: []ast.Pred{ast.P("right", ast.Str("file1"), ast.Str("read"))}}
-	var tok *biscuit.Biscuit
-	var err error
+	var tok, firstTok *biscuit.Biscuit
+	var err, firstErr error
+	configured := -1
 	c.Eval(1)
 	pi := lib.Try(func() {
 		switch op {
-		case 0:
+		case 0, 6:
 			b := biscuit.NewBuilder(priv, biscuit.WithRNG(fr))
 			lib.FillAuthority(b, blk)
 			tok, err = b.Build()
-		case 1:
+		case 9:
+			b := biscuit.NewBuilder(priv, biscuit.WithRNG(fr))
+			lib.FillAuthority(b, blk)
+			tok, err = b.Build()
+			if fr.failAfter >= 0 {
+				firstTok, firstErr = tok, err
+				// the source recovers; the same builder is asked again
+				fr.failAfter = -1
+				tok, err = b.Build()
+			}
+		case 1, 7:
 			bb := biscuit.NewBlockBuilder(&datalog.SymbolTable{})
 			lib.FillBlock(bb, blk)
 			tok, err = biscuit.New(fr, priv, &datalog.SymbolTable{}, bb.Build())
-		case 2, 3, 4, 5:
+		case 2, 3, 4, 5, 8:
 			parent, perr := lib.Build(priv, lib.NewDetRand(c.Seed, fmt.Sprintf("c20-parent-%d", c.Idx)), []ast.Block{blk}, nil)
 			if perr != nil {
 				err = perr
@@ -162,6 +199,18 @@ func c20Run(c *core.C) {
 	desc["delivered_bytes"] = len(fr.delivered)
 	desc["read_calls"] = fr.calls
 	failing := fr.failAfter >= 0
+	if retry && fr.errored {
+		// first attempt: the usual obligation (error, no token, no panic); the second attempt on
+		// the recovered source is a control: a token whose secret is 32 bytes the source delivered
+		configured = len(fr.delivered)
+		if pi == nil && firstTok != nil {
+			c.Violate("token-despite-entropy-failure/"+c20Ops[op], fmt.Sprintf("first attempt returned a token although the source failed (err=%v)", firstErr), desc)
+		} else if pi == nil && firstErr == nil {
+			c.Violate("no-error-on-entropy-failure/"+c20Ops[op], "first attempt: neither token nor error", desc)
+		}
+		failing = false
+		c.Count("retries_after_failure", 1)
+	}
 	if replay {
 		// the fault lies beyond the 32 bytes one key needs: it only counts once the library
 		// has actually been handed the error
@@ -185,7 +234,7 @@ func c20Run(c *core.C) {
 			c.Violate("control-undecodable", derr.Error(), desc)
 			break
 		}
-		if len(fr.delivered) != 32 && !(replay && len(fr.delivered) > 0 && len(fr.delivered)%32 == 0) {
+		if len(fr.delivered) != 32 && !(replay && len(fr.delivered) > 0 && len(fr.delivered)%32 == 0) && !(retry && configured >= 0) {
 			c.Violate("unexpected-entropy-consumption", fmt.Sprintf("%d bytes drawn", len(fr.delivered)), desc)
 		}
 		all := env.All()
@@ -196,7 +245,17 @@ func c20Run(c *core.C) {
 		if replay && len(fr.delivered) >= 64 {
 			seed = fr.delivered[len(fr.delivered)/32*32-32 : len(fr.delivered)/32*32]
 		}
-		if env.ProofKind != wire.ProofSecret || !bytes.Equal(env.Proof, seed) {
+		if retry && configured >= 0 {
+			// any 32 consecutive delivered bytes are "the bytes the source actually delivered"
+			// (a builder may keep what the failed attempt had read, or start its draw afresh)
+			seed = nil
+			for i := 0; i+32 <= len(fr.delivered); i++ {
+				if bytes.Equal(env.Proof, fr.delivered[i:i+32]) {
+					seed = fr.delivered[i : i+32]
+				}
+			}
+		}
+		if env.ProofKind != wire.ProofSecret || seed == nil || !bytes.Equal(env.Proof, seed) {
 			c.Violate("proof-secret-not-from-source", "the next secret is not the 32 bytes the source delivered", desc)
 		} else {
 			want := ed25519.NewKeyFromSeed(seed).Public().(ed25519.PublicKey)
@@ -224,9 +283,10 @@ func c20Run(c *core.C) {
 
 func init() {
 	core.Register(&core.Prop{
-		ID:    "C20",
-		Level: "fault_enumeration",
-		Rule: fmt.Sprintf("exhaustive fault enumeration (complete in both tiers, %d cases): operation in {Builder.Build with WithRNG, New(rng,...), Append on a built parent, Append on a re-loaded parent, and both Appends again with a source that REPLAYS the stream the parent was built from (its first 32 bytes are the secret the parent already carries; failure points 32..63, so a library that draws a second time is handed the error)} x failure point k in 0..31 delivered bytes x error in {io.EOF, io.ErrUnexpectedEOF, custom} x {error on the next read, error together with the last bytes} x delivery in {one read, one byte per read, zero-length reads interleaved}, plus the no-failure control of every delivery. Oracle: a source that handed the library an error must give an error and no token (and no panic); a returned token must carry exactly the delivered 32 bytes as next secret, announce the public key of that seed and verify under the independent chain verifier. ", c20Total()) +
+		ID:        "C20",
+		MinCounts: map[string]int{"retries_after_failure": 500},
+		Level:     "fault_enumeration",
+		Rule: fmt.Sprintf("exhaustive fault enumeration (complete in both tiers, %d cases): operation in {Builder.Build with WithRNG, New(rng,...), Append on a built parent, Append on a re-loaded parent, both Appends again with a source that REPLAYS the stream the parent was built from (its first 32 bytes are the secret the parent already carries; failure points 32..63, so a library that draws a second time is handed the error), Build / New / Append with a source whose first 32 bytes are zero (failure points 32..63 likewise), and Build asked AGAIN on the same builder after the failure with the source recovered (the second token's secret must be 32 consecutive delivered bytes)} x failure point k in 0..31 delivered bytes x error in {io.EOF, io.ErrUnexpectedEOF, custom} x {error on the next read, error together with the last bytes} x delivery in {one read, one byte per read, zero-length reads interleaved}, plus the no-failure control of every delivery. Oracle: a source that handed the library an error must give an error and no token (and no panic); a returned token must carry exactly the delivered 32 bytes as next secret, announce the public key of that seed and verify under the independent chain verifier. ", c20Total()) +
 			"Non-trivial = distinct (operation, k, error, timing, delivery) tuples; every one injects a real fault or is a control.",
 		Assumptions: []string{"crypto/ed25519.GenerateKey draws exactly 32 bytes from the supplied reader with io.ReadFull (true for the pinned toolchain go1.23)"},
 		NumCases:    func(string) int { return c20Total() },
